@@ -2,7 +2,8 @@
 import random
 
 from harness.legs import cfg_text, gen_traces, leg_m, leg_mutant, leg_r, leg_t_gen
-from props.scopetasks_common import ScopeTasksDriver, replay  # noqa: F401
+from props.scopetasks_common import ScopeTasksDriver
+from props.scopetasks_common import replay as _replay_tasks
 
 SPEC = "ScopeTasks"
 MANIFEST = dict(
@@ -48,6 +49,19 @@ def run(rep, work, tier, seed):
     rnd = random.Random(seed * 29 + 1)
     traces = gen_traces(rep, lambda: gen_trace(rnd), 150 if tier == "quick" else 2000)
     leg_t_gen(rep, work, SPEC, f"trace_{tier}", traces, **TRACE_KW)
+    # one scope step by step (ScopeLife.tla): tasks spawned by the body and by a disposable while the scope is still
+    # being entered; whenever the block is left with a failure - incl. a failed or cancelled enter - they are cancelled,
+    # not awaited
+    from props.scopelife_common import ScopeLifeDriver
+    life = dict(ND=2, NC=1 if tier == "quick" else 2, Behaviours=["ok", "fail", "susp"], Bug="none")
+    life_invs = ["TypeOK", "CancelAbortsMembers", "NoWaitAfterFailure", "CancelNotLost", "Restored"]
+    leg_m(rep, work, "ScopeLife", f"life_mc_{tier}", cfg_text(life, invariants=life_invs),
+          expect_actions=["Enter", "Cancel", "Leave", "Spawn", "ChildEnd", "ChildFail"], timeout=3000)
+    if tier == "thorough":
+        leg_mutant(rep, work, "ScopeLife", "mutant_rollback_awaits_members",
+                   cfg_text(dict(life, NC=1, Bug="rollback_awaits_members"), invariants=life_invs + ["RollbackAbortsMembers"]),
+                   ["RollbackAbortsMembers"])
+    leg_r(rep, work, "ScopeLife", f"life_conf_{tier}", cfg_text(life, invariants=life_invs), ScopeLifeDriver, world=True)
     rep.assumptions += [
         "spawned coroutines are gated doubles that obey cancellation at once (a task that swallows cancellation keeps "
         "its scope waiting by design); 'blocking until released' = parked at its gate",
@@ -59,3 +73,10 @@ def run(rep, work, tier, seed):
                       rule="all interleavings of open(async|sync) / spawn / leave / end / fail / cancel / ctx.cancel / check "
                            "by up to NTasks tasks (spawn trees of any shape) within MaxOps; every edge replayed, every "
                            "task's status compared after every action")
+
+
+def replay(rep, record):
+    if record.get("spec") == "ScopeLife":
+        from props.scopelife_common import replay as life_replay
+        return life_replay(rep, record)
+    return _replay_tasks(rep, record)
